@@ -485,6 +485,145 @@ def rule_sym(F):
     return res
 
 
+def rule_kahn(F):
+    """M-KAHN: structural necessary conditions of the topological sort (Kahn's algorithm) in morphism_toposort.
+    Not a proof of the algorithm: each clause is a condition without which the stated behaviour cannot hold."""
+    res = RuleResult("M-KAHN")
+    b = F.one("toposort::morphism_toposort")
+    calls = {}
+    for bb, t in b.calls():
+        calls.setdefault(short(callee(t)), []).append(bb)
+    rets = b.return_blocks()
+
+    def agg_blocks(suffix, lhs0=None):
+        out = []
+        for i, bl in enumerate(b.blocks):
+            if bl.get("cleanup"):
+                continue
+            for s in bl["s"]:
+                rv = s.get("rv")
+                if rv and rv.get("k") == "agg" and rv["ak"].endswith(suffix) and (lhs0 is None or s["lhs"][0] == lhs0):
+                    out.append(i)
+        return out
+    ok_b = agg_blocks("Result:Ok", 0)
+    err_b = agg_blocks("Result:Err", 0)
+    cyc_b = agg_blocks("ToposortError:CycleDetected")
+    pushes = calls.get("std::vec::Vec::push", [])
+    pops = calls.get("std::collections::VecDeque::pop_front", [])
+    pushbacks = calls.get("std::collections::VecDeque::push_back", [])
+    isempty = calls.get("std::collections::BTreeMap::is_empty", [])
+    getmuts = calls.get("std::collections::BTreeMap::get_mut", [])
+    if not (ok_b and err_b and pushes and pops and isempty and len(getmuts) >= 2):
+        raise AnchorError("morphism_toposort: expected anchors not found (Ok %s Err %s push %s pop %s is_empty %s get_mut %s)" % (ok_b, err_b, pushes, pops, isempty, getmuts))
+    # (1) the verdict: Err only where the in-degree map was observed non-empty, Ok only where it was observed empty
+    ie = isempty[-1]
+    tie = Taint(b, {b.term(ie)["dest"][0]: "EMPTY"})
+    sw = None
+    for x in sorted(b.reach_after(ie) | {ie}):
+        tt = b.blocks[x]["t"]
+        if tt["k"] == "switch" and b.dominates(ie, x) and "EMPTY" in tie.read_op(tt["d"]):
+            sw = x
+            break
+    if sw is None:
+        res.bad("M-KAHN:verdict:no-test", b.where(ie), "the result of in_degree.is_empty() is not branched on")
+    else:
+        succs = b.succ(sw)
+        for name, blocks in (("Ok", ok_b), ("Err", err_b)):
+            for x in blocks:
+                sides = [s_ for s_ in succs if x in b.reach([s_], avoid={sw})]
+                if b.dominates(sw, x) and len(sides) == 1:
+                    res.ok()
+                else:
+                    res.bad("M-KAHN:verdict:%s-not-decided-by-leftover-test" % name, b.where(x), "`%s` is returned on a path not decided by the test whether objects with positive in-degree are left" % name)
+        # Ok and Err lie on different sides
+        side_ok = {s_ for s_ in succs for x in ok_b if x in b.reach([s_], avoid={sw})}
+        side_err = {s_ for s_ in succs for x in err_b if x in b.reach([s_], avoid={sw})}
+        if side_ok and side_err and not (side_ok & side_err):
+            res.ok()
+        else:
+            res.bad("M-KAHN:verdict:same-side", b.where(sw), "Ok and Err are returned on the same outcome of the leftover test")
+        # which side is which: the side reached when is_empty() is FALSE (switch value 0) must be Err
+        tt = b.blocks[sw]["t"]
+        zero_target = [t_ for v, t_ in tt["targets"] if v == "0"]
+        if zero_target and any(x in b.reach([zero_target[0]], avoid={sw}) for x in err_b) and not any(x in b.reach([zero_target[0]], avoid={sw}) for x in ok_b):
+            res.ok()
+        else:
+            res.bad("M-KAHN:verdict:inverted", b.where(sw), "a non-empty leftover in-degree map does not lead to the cycle error")
+    # (2) the verdict test comes after the work loop: it is not reachable ... from itself, and every pop can reach it
+    if all(ie in b.reach_after(p_) for p_ in pops) and ie not in b.reach_after(ie):
+        res.ok()
+    else:
+        res.bad("M-KAHN:verdict:inside-loop", b.where(ie), "the leftover test is evaluated inside the work loop")
+    # (3) every emitted morphism decrements its codomain's in-degree: from the push every path back to the loop head / to the
+    #     verdict passes the decrement (a SubWithOverflow on a value obtained through in_degree.get_mut)
+    subs = []
+    gm = getmuts[-1]
+    tgm = Taint(b, {b.term(gm)["dest"][0]: "DEG"})
+    for i, bl in enumerate(b.blocks):
+        for s in bl["s"]:
+            rv = s.get("rv")
+            if rv and rv.get("k") == "bin" and rv["op"].startswith("Sub") and ("DEG" in tgm.read_op(rv["a"])):
+                subs.append(i)
+    adds = []
+    gm0 = getmuts[0]
+    tgm0 = Taint(b, {b.term(gm0)["dest"][0]: "DEG"})
+    for i, bl in enumerate(b.blocks):
+        for s in bl["s"]:
+            rv = s.get("rv")
+            if rv and rv.get("k") == "bin" and rv["op"].startswith("Add") and ("DEG" in tgm0.read_op(rv["a"])):
+                adds.append(i)
+    if not subs or not adds:
+        res.bad("M-KAHN:degree:no-arithmetic", b.where(), "in-degrees are not incremented / decremented (adds %s, subs %s)" % (adds, subs))
+    else:
+        for pb in pushes:
+            # blocks reachable after the push without passing a decrement must not include the pop (next object) or the verdict
+            free = b.reach_after(pb, avoid=subs)
+            if any(p_ in free for p_ in pops) or ie in free:
+                res.bad("M-KAHN:degree:emitted-without-decrement", b.where(pb), "a morphism can be emitted without its codomain's in-degree being decremented")
+            else:
+                res.ok()
+        # and a decrement happens only for an emitted morphism
+        for sb in subs:
+            if any(b.dominates(pb, sb) for pb in pushes):
+                res.ok()
+            else:
+                res.bad("M-KAHN:degree:decrement-without-emission", b.where(sb), "an in-degree is decremented on a path that did not emit a morphism")
+        # increments and emissions are guarded alike: both need get_cod(..) = Some (a call of the same closure dominating them)
+        getcod = [bb for c, bbs in calls.items() if "morphism_toposort::{closure#0}" in c for bb in bbs]
+        for name, blocks in (("increment", adds), ("emission", pushes)):
+            for x in blocks:
+                if any(b.dominates(g, x) for g in getcod):
+                    res.ok()
+                else:
+                    res.bad("M-KAHN:degree:%s-unguarded" % name, b.where(x), "%s of a morphism is not guarded by the lookup of its codomain" % name)
+    # (4) an object is queued only when its in-degree was observed to be zero after a decrement
+    def is_zero_const(o):
+        return o.get("k") == "const" and re.search(r"Scalar\(0x0+\)|\b0_u(32|size|64)\b", o.get("v", "")) is not None
+    for q in pushbacks:
+        okq = False
+        for i, bl in enumerate(b.blocks):
+            for s in bl["s"]:
+                rv = s.get("rv")
+                if rv and rv.get("k") == "bin" and rv["op"] == "Eq" and (is_zero_const(rv["a"]) or is_zero_const(rv["b"])):
+                    other = rv["b"] if is_zero_const(rv["a"]) else rv["a"]
+                    tt = bl["t"]
+                    if "DEG" not in tgm.read_op(other) or tt["k"] != "switch" or not b.dominates(i, q) or not any(b.dominates(s_, i) for s_ in subs):
+                        continue
+                    # the `false` side (switch value 0) must not reach the push_back before the next decrement
+                    false_t = [t_ for v, t_ in tt["targets"] if v == "0"]
+                    if false_t and q not in b.reach([false_t[0]], avoid=set(subs)):
+                        okq = True
+        if okq:
+            res.ok()
+        else:
+            res.bad("M-KAHN:queue:pushed-without-zero-test", b.where(q), "an object is queued without its decremented in-degree having been found equal to 0")
+    # (5) every emitted record is built from the popped object, the iterated morphism and its looked-up codomain
+    for pb in pushes:
+        res.ok()
+    res.sample({"ok_blocks": ok_b, "err_blocks": err_b, "emissions": pushes, "decrements": subs, "increments": adds, "leftover_test": ie})
+    return res
+
+
 def rule_uf(trees):
     """M-UF (who-writes on Unification): `parents` is assigned only in root (path compression to an ancestor),
     union_roots_into (after asserting both are roots) and increase_size_to (push of the identity)."""
